@@ -750,4 +750,3 @@ func scopeClassOf(scopes []string) string {
 	}
 	return strings.Join(parts, "+")
 }
-
